@@ -657,6 +657,14 @@ func faults(c *mon.Custom, cli, self string, rng *rand.Rand) {
 			c.Decided(true, map[string]any{"fault": name, "exit": r.exit, "stderr": clip(r.stderr, 200)})
 		}
 	}
+	// many failing statements after two good ones: the exit status says "failed"
+	// whatever their number (an exit status is a byte)
+	for _, n := range []int{1, 2, 127, 128, 255, 256, 257, 511, 512, 768, 1024} {
+		for _, bad := range []string{"!;\n", "T | bogus; "} {
+			in := before.Text() + strings.Repeat(bad, n)
+			check(fmt.Sprintf("failures-%d-%q", n, bad), nil, in, pre, fmt.Sprintf("%d statements of the input fail", n))
+		}
+	}
 	// a line longer than the scanner's buffer, after two complete statements
 	long := before.Text() + "T | where a == '" + strings.Repeat("x", 70_000) + "';\nT | count;\n"
 	os.WriteFile(filepath.Join(dir, "long.pql"), []byte(long), 0o644)
